@@ -208,7 +208,7 @@ type histCase[G algebra.PrimeGroupElement[G, S], S algebra.PrimeFieldElement[S]]
 	ops   []string
 }
 
-type signFn[G algebra.PrimeGroupElement[G, S], S algebra.PrimeFieldElement[S]] func(label string, msg []byte, orig *mpc.BaseShard[G, S], shards map[uint64]*mpc.BaseShard[G, S], quorum []uint64) string
+type signFn[G algebra.PrimeGroupElement[G, S], S algebra.PrimeFieldElement[S]] func(scheme string, label string, msg []byte, orig *mpc.BaseShard[G, S], shards map[uint64]*mpc.BaseShard[G, S], quorum []uint64) string
 
 type runner[G algebra.PrimeGroupElement[G, S], S algebra.PrimeFieldElement[S]] struct {
 	c    *gctx[G, S]
@@ -401,6 +401,7 @@ func (rn *runner[G, S]) runHistory(p histParams) *histCase[G, S] {
 	r := vh.NewRng(rn.a.Seed, prop, "hist/"+c.name, p.idx)
 	id := fmt.Sprintf("H-%s-%d", c.name, p.idx)
 	hc := &histCase[G, S]{id: id}
+	mixedSigned := false
 	caseText := func(step int) string {
 		q := p
 		q.upto = step
@@ -663,7 +664,8 @@ func (rn *runner[G, S]) runHistory(p histParams) *histCase[G, S] {
 							"C06_mixed_epochs (shares of different epochs do not combine)")
 					}
 				}
-				if rn.sign != nil && t == 0 && (rn.a.Tier == "thorough" || vh.NewRng(rn.a.Seed, prop, "signmix/"+c.name, p.idx*1000+step).Chance(1, 2)) {
+				if rn.sign != nil && t == 0 && (rn.a.Tier == "thorough" || !mixedSigned) {
+					mixedSigned = true
 					ms := map[uint64]*mpc.BaseShard[G, S]{}
 					for _, x := range a {
 						ms[x] = cur.shards[x]
@@ -671,7 +673,7 @@ func (rn *runner[G, S]) runHistory(p histParams) *histCase[G, S] {
 					for _, x := range b {
 						ms[x] = next.shards[x]
 					}
-					if bad := rn.sign(fmt.Sprintf("%s-h%d-m%d", c.name, p.idx, step), []byte("c06 mixed"), first, ms, mq); bad == "" {
+					if bad := rn.sign("lindell22", fmt.Sprintf("%s-h%d-m%d", c.name, p.idx, step), []byte("c06 mixed"), first, ms, mq); bad == "" {
 						rn.propFail(id, "mixed-epoch-shards-sign-validly",
 							fmt.Sprintf("step %d (%s): old shards of %v with new shards of %v produce a signature valid for the key", step, desc, a, b), cs,
 							"C06_mixed_epochs (shares of different epochs do not combine into a valid signature)")
@@ -718,11 +720,28 @@ func (rn *runner[G, S]) runHistory(p histParams) *histCase[G, S] {
 					sq = vh.Pick(rs, smin)
 				}
 				msg := []byte(fmt.Sprintf("c06 message %d/%d", p.idx, step))
-				if bad := rn.sign(fmt.Sprintf("%s-h%d-s%d", c.name, p.idx, step), msg, first, cur.shards, sq); bad != "" {
+				if bad := rn.sign("lindell22", fmt.Sprintf("%s-h%d-s%d", c.name, p.idx, step), msg, first, cur.shards, sq); bad != "" {
 					rn.propFail(id, "signature-after-epochs-invalid", fmt.Sprintf("after step %d (%s), quorum %v: %s", step, desc, sq, bad), cs,
 						"C06_history_invariant (a qualified quorum of the current epoch signs validly for the original key; Lindell22 Schnorr)")
 				}
 				rn.res.Distribution["lindell22 signatures with post-epoch shards"]++
+				// DKLs23 (threshold ECDSA, OT-based multiplication is slow): one history in the quick tier,
+				// every 4th in the thorough tier, with a minimal quorum when there is one
+				if step == length && ((rn.a.Tier == "thorough" && p.idx%4 == 0) || p.idx == 0) {
+					if len(smin) > 0 {
+						sq = smin[0]
+						for _, cand := range smin {
+							if len(cand) < len(sq) {
+								sq = cand
+							}
+						}
+					}
+					if bad := rn.sign("dkls23", fmt.Sprintf("%s-h%d-d%d", c.name, p.idx, step), msg, first, cur.shards, sq); bad != "" {
+						rn.propFail(id, "ecdsa-signature-after-epochs-invalid", fmt.Sprintf("after step %d (%s), quorum %v: %s", step, desc, sq, bad), cs,
+							"C06_history_invariant (a qualified quorum of the current epoch signs validly for the original key; DKLs23 ECDSA)")
+					}
+					rn.res.Distribution["dkls23 signatures with post-epoch shards"]++
+				}
 			}
 		}
 	}
@@ -1057,6 +1076,7 @@ type devCase struct {
 	id, text, line string
 	holders        []uint64 // next holders other than the deviating party, ascending
 	verdicts       map[uint64]drive.Verdict
+	otherKey       map[uint64]bool // the holder accepted a shard whose public key is not the original one
 }
 
 func (rn *runner[G, S]) runDeviation(idx int) *devCase {
@@ -1195,11 +1215,14 @@ func (rn *runner[G, S]) runDeviation(idx int) *devCase {
 	rn.res.Count(class, cs, true)
 
 	// model input: the same step with the same deviation; the model's Round3 gives every victim's verdict
-	dc := &devCase{id: id, text: cs, verdicts: map[uint64]drive.Verdict{}}
+	dc := &devCase{id: id, text: cs, verdicts: map[uint64]drive.Verdict{}, otherKey: map[uint64]bool{}}
 	for _, x := range next.holders {
 		if x != dev {
 			dc.holders = append(dc.holders, x)
 			dc.verdicts[x] = full.Trace.Verdicts[sharing.ID(x)]
+			if sh := full.Shards[sharing.ID(x)]; sh != nil && !sh.PublicKeyValue().Equal(pk0) {
+				dc.otherKey[x] = true
+			}
 		}
 	}
 	un, uerr := unanimity.NewUnanimityAccessStructure(dred.IDSet(quorum))
@@ -1238,7 +1261,7 @@ func (rn *runner[G, S]) compareDeviation(dc *devCase, out string) {
 				rn.res.Distribution["deviation: implementation stricter than model"]++
 			}
 		case v.Class == "ok":
-			rn.res.Mismatch(vh.Mismatch{ID: dc.id, Kind: "corr", Key: "round3-verdict", Case: dc.text, What: what,
+			rn.res.Mismatch(vh.Mismatch{ID: dc.id, Kind: "corr", Key: "round3-verdict", Case: dc.text, What: what, PropFail: dc.otherKey[x],
 				Detail: fmt.Sprintf("holder %d: model %s, implementation accepts", x, tok)})
 		case strings.HasPrefix(tok, "blame:") && v.Class == "reject_blame" && v.String() != "reject_blame{"+strings.TrimPrefix(tok, "blame:")+"}":
 			rn.res.Mismatch(vh.Mismatch{ID: dc.id, Kind: "corr", Key: "round3-blame", Case: dc.text, What: what,
@@ -1416,7 +1439,10 @@ func main() {
 	}
 	if only == nil || only["group"] == "k256" {
 		runGroup(newCtx[*k256.Point, *k256.Scalar]("k256", k256.NewCurve()), a, res, nHist, maxLen, maxHolders, nZero, nDev, nRef, only,
-			func(label string, msg []byte, orig *mpc.BaseShard[*k256.Point, *k256.Scalar], shards map[uint64]*mpc.BaseShard[*k256.Point, *k256.Scalar], quorum []uint64) string {
+			func(scheme, label string, msg []byte, orig *mpc.BaseShard[*k256.Point, *k256.Scalar], shards map[uint64]*mpc.BaseShard[*k256.Point, *k256.Scalar], quorum []uint64) string {
+				if scheme == "dkls23" {
+					return signDklsK256(a.Seed, label, msg, orig, shards, quorum)
+				}
 				return signK256(a.Seed, label, msg, orig, shards, quorum)
 			})
 	}
